@@ -5320,8 +5320,14 @@ class FlowIRConcrete(object):
 
         platform_environments = self.get_environments(platform)
 
+        # VV: Layer the variables of each environment that the platform defines on top of the variables of the same
+        #     environment in the default platform (exactly like get_environment() does); replacing the whole
+        #     environment would drop the variables that only the default platform defines
         environments = default_environments
-        environments.update(platform_environments)
+        for env_name in platform_environments:
+            layered = dict(environments.get(env_name) or {})
+            layered.update(platform_environments[env_name] or {})
+            environments[env_name] = layered
 
         unresolved_global_variables = global_variables
         global_variables = FlowIR.fill_in(
